@@ -438,7 +438,7 @@ def _desugar(n):
             out[key] = _desugar(v)
         else:
             out[key] = v
-    return _explicit_tests(_explicit_while_let(_explicit_expect(_explicit_try(out))))
+    return _builtin_index(_explicit_tests(_bool_match(_explicit_while_let(_explicit_expect(_explicit_try(out))))))
 
 
 def _only_break(n):
@@ -475,6 +475,38 @@ _TESTS = {("Option", "Some"): "std::option::Option::<T>::is_some", ("Option", "N
 def _payload_free(p):
     p = strip_ref(p)
     return p.get("k") == "Variant" and all(strip_ref(s["p"]).get("k") == "Wild" for s in p.get("sub") or [])
+
+
+def _builtin_index(n):
+    """the built-in `a[i]` on slices/arrays is given the same node as the overloaded `Index::index(a, i)` (Vec, HashMap, str)"""
+    if n.get("k") == "Index" and n.get("arg") is not None and n.get("index") is not None:
+        return {"k": "Call", "ty": n.get("ty"), "sp": n.get("sp"), "fn": "std::ops::Index::index", "local": False, "gen": [str(peel(n["arg"]).get("ty", ""))], "hir_call": False,
+                "builtin_index": True, "args": [n["arg"], n["index"]]}
+    return n
+
+
+def _bool_match(n):
+    """`match c { true => A, false => B }` (either order, second arm may be `_`) is `if c { A } else { B }`"""
+    if n.get("k") == "Match" and len(n["arms"]) == 2 and not any(a.get("guard") for a in n["arms"]):
+        vals = []
+        for a in n["arms"]:
+            p = strip_ref(a["pat"])
+            if p.get("k") == "Const" and str(p.get("v")) in ("true", "false"):
+                vals.append(str(p["v"]) == "true")
+            elif p.get("k") == "Wild" and a is n["arms"][1]:
+                vals.append(None)
+            else:
+                return n
+        if vals[0] is None:
+            return n
+        if vals[1] is None:
+            vals[1] = not vals[0]
+        if vals[0] == vals[1]:
+            return n
+        t = n["arms"][0]["body"] if vals[0] else n["arms"][1]["body"]
+        e = n["arms"][1]["body"] if vals[0] else n["arms"][0]["body"]
+        return {"k": "If", "ty": n.get("ty"), "sp": n.get("sp"), "cond": n["scrut"], "then": t, "else": e}
+    return n
 
 
 def _explicit_tests(n):
@@ -629,7 +661,7 @@ ANCHOR_PREFIXES = (
     "solver::match_of", "solver::search", "solver::slow_aho", "rule::Rule::", "value::Object::", "value::Value::", "error::", "core::solve", "core::solve_expression",
 )
 ANCHOR_EXACT = set(ANCHOR_PREFIXES)
-HELPER_MAX_NODES = 160
+HELPER_MAX_NODES = 2500
 
 
 def is_anchor(name):
@@ -649,6 +681,89 @@ def _count(n):
     return c
 
 
+def _always_returns(n):
+    n = peel(n)
+    k = n.get("k")
+    if k == "Return":
+        return True
+    if k == "Block":
+        items = [s["e"] for s in n["stmts"] if s["k"] == "Expr"] + ([n["expr"]] if n.get("expr") is not None else [])
+        return bool(items) and _always_returns(items[-1])
+    if k == "If":
+        return n.get("else") is not None and _always_returns(n["then"]) and _always_returns(n["else"])
+    if k == "Match":
+        return all(_always_returns(a["body"]) for a in n["arms"])
+    return False
+
+
+def _strip_return(n):
+    """the value of an expression that always returns, as an expression (its `return v` leaves become `v`)"""
+    k = n.get("k")
+    if k == "Return":
+        return n.get("value") if n.get("value") is not None else {"k": "Tuple", "ty": "()", "sp": n.get("sp"), "fields": []}
+    if k == "Block":
+        b = dict(n)
+        stmts = list(n["stmts"])
+        if n.get("expr") is not None:
+            b["expr"] = _strip_return(n["expr"])
+        elif stmts and stmts[-1]["k"] == "Expr":
+            b["expr"] = _strip_return(stmts[-1]["e"])
+            stmts = stmts[:-1]
+        b["stmts"] = stmts
+        return b
+    if k == "If":
+        b = dict(n)
+        b["then"] = _strip_return(n["then"])
+        b["else"] = _strip_return(n["else"])
+        return b
+    if k == "Match":
+        b = dict(n)
+        b["arms"] = [dict(a, body=_strip_return(a["body"])) for a in n["arms"]]
+        return b
+    if k in ("Borrow", "Deref", "Coerce", "ByUse"):
+        return _strip_return(n["arg"])
+    return n
+
+
+def _unreturn(n):
+    """A function body (Block) in which guard-clause returns and a trailing `return v;` are expressed as if/else tails."""
+    if not isinstance(n, dict):
+        return n
+    k = n.get("k")
+    if k == "Block":
+        stmts = list(n["stmts"])
+        tail = n.get("expr")
+        if tail is None and stmts and stmts[-1]["k"] == "Expr" and _always_returns(stmts[-1]["e"]):
+            tail = _strip_return(stmts[-1]["e"])
+            stmts = stmts[:-1]
+        for i, s in enumerate(stmts):
+            if s["k"] == "Expr":
+                e = peel(s["e"])
+                if e.get("k") == "If" and e.get("else") is None and _always_returns(e["then"]) and peel(e["cond"]).get("k") != "LetCond":
+                    rest = {"k": "Block", "ty": n.get("ty"), "sp": n.get("sp"), "unsafe": False, "stmts": stmts[i + 1:], "expr": tail}
+                    new_if = dict(e)
+                    new_if["then"] = _strip_return(e["then"])
+                    new_if["else"] = _unreturn(rest)
+                    new_if["ty"] = n.get("ty")
+                    return {"k": "Block", "ty": n.get("ty"), "sp": n.get("sp"), "unsafe": n.get("unsafe", False), "stmts": stmts[:i], "expr": new_if}
+        out = dict(n)
+        out["stmts"] = stmts
+        out["expr"] = _unreturn(tail) if tail is not None else None
+        return out
+    if k == "If" and n.get("else") is not None:
+        out = dict(n)
+        out["then"] = _unreturn(n["then"])
+        out["else"] = _unreturn(n["else"])
+        return out
+    if k == "Match":
+        out = dict(n)
+        out["arms"] = [dict(a, body=_unreturn(a["body"])) for a in n["arms"]]
+        return out
+    if k == "Return" and n.get("value") is not None:
+        return _unreturn(n["value"])
+    return n
+
+
 class Fn:
     def __init__(self, t, m, facts=None):
         self.name = (t or m)["fn"]
@@ -665,16 +780,26 @@ class Fn:
             self._raw = _desugar(self.thir["body"])
         return self._raw
 
-    def is_helper(self, tail=False):
-        """Small, non-recursive local function that no rule refers to by name.  With early returns (`return`, `?`) it can only be
-        inlined where its value is returned by the caller anyway (tail=True)."""
+    @property
+    def helper_body(self):
+        """raw body with guard-clause returns turned into if/else tails (`if c { return A }; rest` -> `if c { A } else { rest }`)"""
+        if getattr(self, "_hbody", None) is None:
+            self._hbody = _unreturn(self.raw_body)
+        return self._hbody
+
+    def is_helper(self, tail=False, under_try=False):
+        """Non-recursive local function that no rule refers to by name.  Early returns that are guard clauses are first rewritten
+        into if/else tails; with remaining `return`s it can only be inlined where its value is returned by the caller anyway
+        (tail=True), with `?` also where the call itself is under a `?`."""
         if self.thir is None or is_anchor(self.name) or self.thir.get("kind") not in ("Fn", "AssocFn"):
             return False
-        b = self.raw_body
+        b = self.helper_body
         if _count(b) > HELPER_MAX_NODES:
             return False
         for x in walk(b):
-            if x.get("k") in ("Return", "Try") and not tail:
+            if x.get("k") == "Return" and not tail:
+                return False
+            if x.get("k") == "Try" and not (tail or under_try):
                 return False
             if x.get("k") == "Call" and x.get("fn") == self.name:
                 return False
@@ -686,7 +811,11 @@ class Fn:
         if self._body is None and self.thir is not None:
             b = self.raw_body
             if self.facts is not None:
-                b = _normalise(b, self.facts, depth=0, tail=True)
+                _CLOSURES.append(_closure_env(b))
+                try:
+                    b = _normalise(b, self.facts, depth=0, tail=True)
+                finally:
+                    _CLOSURES.pop()
             self._body = b
         return self._body
 
@@ -711,6 +840,21 @@ def _subst(n, m):
 _inline_counter = [0]
 
 
+def _reid_only(n, off, ids):
+    """fresh identities for the variables in `ids` only"""
+    if isinstance(n, list):
+        return [_reid_only(x, off, ids) for x in n]
+    if not isinstance(n, dict):
+        return n
+    out = {}
+    for k, v in n.items():
+        if k == "id" and isinstance(v, int) and v in ids:
+            out[k] = v + off
+        else:
+            out[k] = _reid_only(v, off, ids)
+    return out
+
+
 def _reid(n, off):
     """Give every variable of an inlined body a fresh identity (ids are only unique per function)."""
     if isinstance(n, list):
@@ -726,7 +870,20 @@ def _reid(n, off):
     return out
 
 
-def _normalise(n, F, depth, tail=False):
+_CLOSURES = []  # stack of {variable id: closure def} for the function bodies being normalised
+
+
+def _closure_env(body):
+    env = {}
+    for x in walk(body):
+        if x.get("k") == "Block":
+            for s in x["stmts"]:
+                if s["k"] == "Let" and strip_ref(s["pat"]).get("k") == "Bind" and s.get("init") is not None and peel(s["init"]).get("k") == "Closure" and strip_ref(s["pat"]).get("mode", "").endswith("Not)"):
+                    env[strip_ref(s["pat"])["id"]] = peel(s["init"])["def"]
+    return env
+
+
+def _normalise(n, F, depth, tail=False, under_try=False):
     if isinstance(n, list):
         return [_normalise(x, F, depth) for x in n]
     if not isinstance(n, dict):
@@ -748,7 +905,7 @@ def _normalise(n, F, depth, tail=False):
             if k0 == "Match" and key == "arms":
                 out[key] = [{kk: (_normalise(vv, F, depth, tail) if kk == "body" else (vv if kk == "pat" else _normalise(vv, F, depth))) for kk, vv in a.items()} for a in v]
             elif isinstance(v, dict):
-                out[key] = _normalise(v, F, depth, t)
+                out[key] = _normalise(v, F, depth, t, under_try=(k0 == "Try" and key == "arg"))
             else:
                 out[key] = _normalise(v, F, depth)
         else:
@@ -757,22 +914,71 @@ def _normalise(n, F, depth, tail=False):
     # (1) helper inlining
     if k == "Call" and out.get("local") and depth < 3:
         callee = F.fns.get(out.get("fn"))
-        if callee is not None and callee.is_helper(tail=tail) and len(callee.thir["params"]) == len(out["args"]):
+        if callee is not None and callee.is_helper(tail=tail, under_try=under_try) and len(callee.thir["params"]) == len(out["args"]):
             _inline_counter[0] += 1
             off = 1000000 * _inline_counter[0]
             stmts = []
             subst = {}
             for p, a in zip(callee.thir["params"], out["args"]):
-                if peel(a).get("k") in ("Var", "Upvar", "Lit", "Const") or (peel(a).get("k") == "Field" and peel(peel(a)["arg"]).get("k") in ("Var", "Upvar")):
+                core_a = peel(a)
+                while core_a.get("k") == "Call" and (core_a.get("fn") or "").endswith(("Deref::deref", "::as_slice", "::as_str", "AsRef::as_ref")) and len(core_a["args"]) == 1:
+                    core_a = peel(core_a["args"][0])  # a view of a variable (`&*v`, `v.as_slice()`) is as good as the variable
+                if core_a.get("k") in ("Var", "Upvar", "Lit", "Const") or (core_a.get("k") == "Field" and peel(core_a["arg"]).get("k") in ("Var", "Upvar")):
                     subst[p["pat"]["id"] + off] = a  # a plain variable / literal argument simply takes the parameter's place
                 else:
                     stmts.append({"k": "Let", "sp": out["sp"], "pat": _reid(p["pat"], off), "init": a, "else": None})
-            inner = _subst(_reid(_normalise(callee.raw_body, F, depth + 1, tail), off), subst)
+            _CLOSURES.append(_closure_env(callee.helper_body))
+            try:
+                inner = _subst(_reid(_normalise(callee.helper_body, F, depth + 1, tail), off), subst)
+            finally:
+                _CLOSURES.pop()
             if not stmts:
                 inner = dict(inner)
                 inner["inlined"] = callee.name
                 return inner
             return {"k": "Block", "ty": out.get("ty"), "sp": out["sp"], "unsafe": False, "stmts": stmts, "expr": inner, "inlined": callee.name}
+    # (1b) a call of a local closure (`let f = |a| body; .. f(x)`) is the closure body with its parameters bound
+    if k == "Call" and (out.get("fn") or "").endswith(("Fn::call", "FnMut::call_mut", "FnOnce::call_once")) and len(out["args"]) == 2 and depth < 3:
+        fv = peel(out["args"][0])
+        tup = peel(out["args"][1])
+        cdef = _CLOSURES[-1].get(fv.get("id")) if _CLOSURES and fv.get("k") in ("Var", "Upvar") else None
+        clo = F.fns.get(cdef) if cdef else None
+        if clo is not None and clo.thir is not None and tup.get("k") == "Tuple":
+            ps = [p for p in clo.thir["params"] if p.get("pat") is not None]
+            cbody = _unreturn(clo.raw_body)
+            if len(ps) == len(tup["fields"]) and not any(x.get("k") in ("Return", "Try") for x in walk(cbody)):
+                # every inlined copy gets fresh identities for the closure's own bindings (captured variables keep theirs)
+                _inline_counter[0] += 1
+                coff = 1000000 * _inline_counter[0]
+                own = set()
+                for p_ in ps:
+                    own |= {b[1] for b in pat_binds(p_["pat"])}
+                for x in walk(cbody):
+                    if x.get("k") == "Block":
+                        for st in x["stmts"]:
+                            if st["k"] == "Let":
+                                own |= {b[1] for b in pat_binds(st["pat"])}
+                    for key in ("arms",):
+                        for a_ in x.get(key) or []:
+                            own |= {b[1] for b in pat_binds(a_["pat"])}
+                    if x.get("k") in ("For", "LetCond") and x.get("pat") is not None:
+                        own |= {b[1] for b in pat_binds(x["pat"])}
+                cbody = _reid_only(cbody, coff, own)
+                ps = [dict(p_, pat=_reid_only(p_["pat"], coff, own)) for p_ in ps]
+                stmts = []
+                subst = {}
+                for p_, a in zip(ps, tup["fields"]):
+                    pb = strip_ref(p_["pat"])
+                    if pb.get("k") == "Bind" and not pb.get("sub") and peel(a).get("k") in ("Var", "Upvar", "Lit", "Const") and p_["pat"].get("k") == "Bind":
+                        subst[pb["id"]] = a
+                    else:
+                        stmts.append({"k": "Let", "sp": out["sp"], "pat": p_["pat"], "init": a, "else": None})
+                inner = _subst(_normalise(cbody, F, depth + 1), subst)
+                if not stmts:
+                    inner = dict(inner)
+                    inner["inlined"] = cdef
+                    return inner
+                return {"k": "Block", "ty": out.get("ty"), "sp": out["sp"], "unsafe": False, "stmts": stmts, "expr": inner, "inlined": cdef}
     # (2) `iter.map(closure).collect()` as an explicit loop that pushes in order
     if k == "Call" and (out.get("fn") or "").endswith("Iterator::collect") and out["args"]:
         m = peel(out["args"][0])
